@@ -3,7 +3,8 @@ From Coq Require Import ZArith List Bool String Ascii.
 From Coq Require Extraction.
 From Coq Require Import ExtrOcamlBasic ExtrOcamlString.
 From HV Require Import Model.SexpDefs Gen.GenRefine Spec.SmtQuerySpec Model.SmtTextModel
-  Model.PathCopyDefs Gen.GenPathCopy Model.PathHeapModel.
+  Model.PathCopyDefs Gen.GenPathCopy Model.PathHeapModel
+  Model.DumpFsDefs Gen.GenDumpFs Model.DumpFsModel.
 Import ListNotations.
 Open Scope Z_scope.
 
@@ -200,8 +201,90 @@ Definition c11_lineage_solver (a : list Z) : list Z :=
   | _ => [0]
   end.
 
+(* ---- the dump / solve protocol on a file system (Model/DumpFsModel.v).
+   text = length, character codes.
+   input : number of files, (name, content)*, number of calls,
+           (directory, path id, is_refined, cache_solver, core hit, solve again, query.smtlib,
+            refined smtlib, number of ids, ids...)*
+   output: number of solver processes, (file name, 1 content | 0)*,
+           number of files afterwards, (name, content)*
+   The solver answers ("", "") to everything: only the query files matter here. *)
+Definition read_str (l : list Z) : string * list Z :=
+  match l with
+  | n :: r => let (a, b) := take_n (Z.to_nat n) r in (str_of a, b)
+  | [] => (EmptyString, [])
+  end.
+
+Definition enc_str (s : string) : list Z := Z.of_nat (String.length s) :: codes_of s.
+
+Fixpoint read_files (n : nat) (l : list Z) : fsys * list Z :=
+  match n with
+  | O => ([], l)
+  | S n' =>
+      let (nm, r1) := read_str l in
+      let (ct, r2) := read_str r1 in
+      let (fs, r3) := read_files n' r2 in ((nm, ct) :: fs, r3)
+  end.
+
+Fixpoint read_jobs (n : nat) (l : list Z) : list (job * (string * string)) :=
+  match n with
+  | O => []
+  | S n' =>
+      let (dir, r1) := read_str l in
+      match r1 with
+      | id :: rfd :: cache :: core :: again :: r2 =>
+          let (smt, r3) := read_str r2 in
+          let (rsmt, r4) := read_str r3 in
+          match r4 with
+          | k :: r5 =>
+              let (ids, r6) := take_n (Z.to_nat k) r5 in
+              (mkJob (mkCtx dir id (negb (rfd =? 0)) (negb (cache =? 0)) smt (map print_dec ids))
+                     (negb (core =? 0)) (fun _ => negb (again =? 0)), (smt, rsmt))
+              :: read_jobs n' r6
+          | [] => []
+          end
+      | _ => []
+      end
+  end.
+
+Fixpoint fs_listing (d : fsys) (seen : list string) : list Z :=
+  match d with
+  | [] => []
+  | (n, c) :: r =>
+      if existsb (String.eqb n) seen then fs_listing r seen
+      else (enc_str n ++ enc_str c ++ fs_listing r (n :: seen))%list
+  end.
+Fixpoint fs_count (d : fsys) (seen : list string) : Z :=
+  match d with
+  | [] => 0
+  | (n, _) :: r => if existsb (String.eqb n) seen then fs_count r seen else 1 + fs_count r (n :: seen)
+  end.
+
+Definition c11_fs (a : list Z) : list Z :=
+  match a with
+  | nf :: r =>
+      let (fs0, r1) := read_files (Z.to_nat nf) r in
+      match r1 with
+      | nj :: r2 =>
+          let js := read_jobs (Z.to_nat nj) r2 in
+          let rf := fun s => match find (fun p => String.eqb (fst p) s) (map snd js) with
+                             | Some p => snd p
+                             | None => s
+                             end in
+          let slv : solver_t := fun _ => Some (EmptyString, EmptyString) in
+          let (fs1, tr) := run_jobs slv rf (fs0, []) (map fst js) in
+          (lenZ tr ::
+           flat_map (fun e => enc_str (ev_file e) ++
+                              match ev_read e with Some t => 1 :: enc_str t | None => [0] end) tr ++
+           fs_count fs1 [] :: fs_listing fs1 [])%list
+      | [] => []
+      end
+  | [] => []
+  end.
+
 Definition table : list (string * (list Z -> list Z)) :=
-  [ ("c11_sched"%string, c11_sched);
+  [ ("c11_fs"%string, c11_fs);
+    ("c11_sched"%string, c11_sched);
     ("c11_lineage_solver"%string, c11_lineage_solver);
     ("c11_heap"%string, c11_heap);
     ("c11_lineage_spec"%string, c11_lineage_spec);
